@@ -50,7 +50,7 @@ def random_value(rng, name, cur):
     if name == "azimuth_in_degrees":
         return float(rng.choice([0., 20., 135.5]))
     if name == "azimuths_in_degrees":
-        return [np.arange(0, 180, 30.), [0., 45., 90.], (10., 100.), np.array([5, 50, 95])][int(rng.integers(0, 4))]
+        return [np.arange(0, 180, 30.), [0., 45., 90.], (10., 100.), np.array([5, 50, 95]), np.array([22.5, 67.5, 112.5]), [0.5, 45.25]][int(rng.integers(0, 6))]
     if name == "ppth_percentile_for_rotdpp_computation":
         return float(rng.choice([0., 50., 84., 100.]))
     if name == "instrument_transfer_function":
